@@ -89,7 +89,7 @@ def internal_forces(vk, cfg):
         vk.canary("moment-tensor==0", M, 0 * M) if vk.sym else None
 
 
-@contract("C14", "loads", configs=[dict(item=i, template=t) for i in ("bodyforce", "gravity", "mass") for t in ("RegionTriangle", "RegionQuad", "RegionTetra", "RegionQuadraticTriangle")] + [dict(item="pointload", axi=a) for a in (False, True)] + [dict(item=i) for i in ("mpc", "contact")])
+@contract("C14", "loads", configs=[dict(item=i, template=t) for i in ("bodyforce", "gravity", "mass") for t in ("RegionTriangle", "RegionQuad", "RegionTetra", "RegionQuadraticTriangle")] + [dict(item="pointload", axi=a) for a in (False, True)] + [dict(item=i) for i in ("mpc", "mpc-center-in-points", "contact")])
 def loads(vk, cfg):
     item = cfg["item"]
     if item in ("bodyforce", "gravity", "mass"):
@@ -162,8 +162,9 @@ def loads(vk, cfg):
         return
     fc = fem.FieldContainer([fem.Field(rg, dim=3, values=u)])
     k = vk.real_scalar("k", near=10.0)
-    if item == "mpc":
-        it = fem.MultiPointConstraint(fc, points=[0, 2, 3], centerpoint=4, multiplier=k)
+    if item.startswith("mpc"):
+        # the centre point may itself be listed among the constrained points (index list / boolean mask)
+        it = fem.MultiPointConstraint(fc, points=[0, 2, 3] if item == "mpc" else [0, 2, 4], centerpoint=4, multiplier=k)
         vk.real(fem.MultiPointConstraint._vector)
     else:
         Xp = rg.mesh.points
